@@ -740,8 +740,14 @@ impl<'a, T: QueryToRelationTranslator + Copy + Clone> VisitedQueryRelations<'a, 
             order_by,
             limit,
             offset,
+            fetch,
             ..
         } = query;
+        // FETCH FIRST n ROWS ONLY is the standard spelling of LIMIT n
+        let limit: Option<&'a ast::Expr> = limit.as_ref().or(fetch
+            .as_ref()
+            .filter(|f| !f.percent && !f.with_ties)
+            .and_then(|f| f.quantity.as_ref()));
         match body.as_ref() {
             ast::SetExpr::Select(select) => {
                 let RelationWithColumns(relation, columns) =
@@ -771,7 +777,7 @@ impl<'a, T: QueryToRelationTranslator + Copy + Clone> VisitedQueryRelations<'a, 
                     // Add LIMITs
                     let relation_builder: Result<MapBuilder<WithInput>> =
                         limit.iter().fold(relation_builder, |builder, limit| {
-                            Ok(builder?.limit(self.try_from_limit(limit)?))
+                            Ok(builder?.limit(self.try_from_limit(*limit)?))
                         });
                     // Add OFFSET
                     let relation_builder: Result<MapBuilder<WithInput>> =
